@@ -62,7 +62,7 @@ def _list_slice(slize: Slice) -> List[Slice]:
     Returns a list of Slices in which each element has a concrete Signal for its parent."""
 
     # Resolve "full-width", forward-ordered slices to their parent Signals
-    if slize.step > 0 and width(slize) == width(slize.parent):
+    if slize.step > 0 and slize.bot == 0 and width(slize) == width(slize.parent):
         # Return a single-element list, after resolution
         return [_resolve_sliceable(slize.parent)]
 
